@@ -167,6 +167,9 @@ def future_mix(pools=(0, 1, 2)):
         out.append(make('FDkeep_D_AW_Fire_p%d' % p, 1, p, 1, [FD(1, aw=[1], label='f'), D(1), AW('f')], [FIRE(1)]))
         out.append(make('FDdet_D_Fire_T_p%d' % p, 1, p, 1, [FD(1, aw=[1], then='detach'), D(1)], [FIRE(1), T(1)]))
         out.append(make('FD2aw_Fire2_p%d' % p, 1, p, 2, [FD(1, aw=[1, 2], then='await')], [FIRE(1), FIRE(2)]))
+        # polled once (the poll drains the queue and parks it in WaitingForPoll), then dropped / never polled again
+        out.append(make('FD_PO_DR_D_Fire_p%d' % p, 1, p, 1, [FD(1, aw=[1], label='f'), PO('f'), DR('f'), D(1)], [FIRE(1)]))
+        out.append(make('FD_D_PO_Fire_p%d' % p, 1, p, 1, [FD(1, aw=[1], label='f'), D(1), PO('f')], [FIRE(1)]))
     return out
 
 
@@ -232,6 +235,9 @@ def suspend_families(pools=(0, 1)):
     for p in (1, 2):
         out.append(make('SU_RS_Sother_p%d' % p, 1, p, 0, [D(1), SU(1, then='await', label='s'), D(1), RS('s')], [S(1), T(1)]))
         out.append(make('SU_FD_RS_p%d' % p, 1, p, 1, [SU(1, then='await', label='s'), FD(1, aw=[1], then='detach'), RS('s'), S(1)], [FIRE(1)]))
+        # a later future is polled once while the queue is still pending: the poll drains up to the suspension and parks the queue
+        out.append(make('SU_FD_PO_AW_RS_DR_p%d' % p, 1, p, 0, [D(1), SU(1, label='s'), FD(1, label='f'), D(1), PO('f'), AW('s'), RS('s'), DR('f')]))
+        out.append(make('SU_FD_PO_AW_DRS_p%d' % p, 1, p, 0, [SU(1, label='s'), FD(1, label='f'), D(1), PO('f'), AW('s'), DRS('s')], [T(1)]))
     return out
 
 
@@ -324,6 +330,8 @@ def for_property(prop, tier, seed=0):
         fam = drop_families((0, 1) if quick else (0, 1, 2))
     elif prop == 'C08':
         fam = fsync_families((0, 1) if quick else (0, 1, 2))
+        if quick:
+            fam = [x for x in fam if not x['name'].endswith('_p2')]
     elif prop == 'C13':
         fam = suspend_families((0, 1) if quick else (0, 1, 2))
     elif prop == 'C14':
